@@ -51,11 +51,16 @@ def one(ctx: Ctx, cs, pname, over, core=True, max_sets=24):
     for ci, cuts in enumerate(cutsets):
         bounds = [0] + cuts + [len(src_lines)]
         frag_ranges = [(bounds[i], bounds[i + 1]) for i in range(len(bounds) - 1)]
-        for sep_mode in (0, 1):
+        for sep_mode in ((0, 1, 2) if ci % 4 == 0 else (0, 1)):
             if sep_mode == 0:
                 sep = '\n'
                 frags = ['\n'.join(src_lines[a:b]) for a, b in frag_ranges]
                 kwargs = {} if ci % 2 else {'separator': '\n'}
+            elif sep_mode == 2:
+                # newline separator AND fragments that end with a newline: blank lines between the fragments
+                sep = '\n'
+                frags = ['\n'.join(src_lines[a:b]) + '\n' for a, b in frag_ranges]
+                kwargs = {'separator': '\n'}
             else:
                 sep = ''
                 frags = ['\n'.join(src_lines[a:b]) + '\n' for a, b in frag_ranges]
